@@ -429,7 +429,13 @@ Proof.
 Qed.
 
 Lemma tok_skip_slashes Y : tok_skip [slash; slash] (slash :: slash :: Y) = (true, Y).
-Proof. reflexivity. Qed.
+Proof.
+  unfold tok_skip.
+  assert (E : starts_with (slash :: slash :: Y) [slash; slash] = true) by (cbn; destruct Y; reflexivity).
+  rewrite E.
+  change (lenN [slash; slash]) with 2. change (dropN 2 (slash :: slash :: Y)) with (dropN 0 Y).
+  rewrite dropN_0. reflexivity.
+Qed.
 
 Definition nul_free_b (l : bytes) : bool := forallb (fun c => negb (c =? 0)) l.
 Lemma cstr_app_nul_free a b : nul_free_b a = true -> cstr (a ++ b) = a ++ cstr b.
@@ -553,7 +559,7 @@ Section Shape.
       end.
   Proof.
     intros Hm Hs Hnone Hurn HA Hrest Hlen. unfold parse.
-    assert (L : (uri_MAX_URL - 1 <? lenN (s ++ colon :: slash :: slash :: A ++ rest)) = false) by lia.
+    assert (L : (uri_MAX_URL - 1 <? lenN (s ++ colon :: slash :: slash :: A ++ rest)) = false) by (apply N.ltb_ge; exact Hlen).
     rewrite L, Hm.
     assert (St : list_eqb (s ++ colon :: slash :: slash :: A ++ rest) uri_asterisk = false).
     { destruct Hs as [_ [_ Ha]]. destruct s as [|c0 s']; [discriminate|].
@@ -562,10 +568,12 @@ Section Shape.
     apply N.eqb_neq in Hnone, Hurn. rewrite Hnone, Hurn.
     unfold parse_url. rewrite tok_skip_slashes.
     assert (HAn : nul_free_b A = true).
-    { unfold nul_free_b. eapply forallb_impl; [|exact HA]. intros x Hx. unfold auth_char in Hx. lia. }
+    { unfold nul_free_b. eapply forallb_impl; [|exact HA]. intros x Hx. unfold auth_char in Hx.
+      apply andb_true_iff in Hx as [_ Hx]. exact Hx. }
     rewrite (cstr_app_nul_free A rest HAn).
     assert (HAd : forallb (fun c0 => negb (host_delim c0)) A = true).
-    { eapply forallb_impl; [|exact HA]. intros x Hx. unfold auth_char in Hx. lia. }
+    { eapply forallb_impl; [|exact HA]. intros x Hx. unfold auth_char in Hx.
+      apply andb_true_iff in Hx as [Hx _]. exact Hx. }
     rewrite (span_app_stop _ A (cstr rest) HAd (cstr_rest_stop rest Hrest)). reflexivity.
   Qed.
 
@@ -650,7 +658,7 @@ Section Shape.
   Proof.
     intros Hm Hs Hnone Hurn Hui Hh Hha Hhc Hhb HP HPa HPc Hrest H.
     assert (Hlen : lenN (s ++ colon :: slash :: slash :: (ui ++ h ++ colon :: P) ++ rest) <= uri_MAX_URL - 1).
-    { unfold parse in H. destruct (uri_MAX_URL - 1 <? lenN _) eqn:E; [discriminate| lia]. }
+    { unfold parse in H. destruct (uri_MAX_URL - 1 <? lenN _) eqn:E; [discriminate| apply N.ltb_ge in E; exact E]. }
     assert (HA : forallb auth_char (ui ++ h ++ colon :: P) = true).
     { rewrite !forallb_app'. cbn [forallb]. rewrite (userinfo_auth ui Hui), Hh, HP. reflexivity. }
     rewrite (parse_shape c m s _ rest Hm Hs Hnone Hurn HA Hrest Hlen) in H.
@@ -667,7 +675,7 @@ Section Shape.
     destruct (port_digits_sound P 0 port Hpd) as [Hd Hv]. apply finish_inv in Hal.
     destruct Hal as [_ [_ [Hp [Hr _]]]]. subst port.
     split; [|split; [exact Hd| split; [exact Hr| exact Hp]]].
-    intros ->. cbn [dec_value] in Hr. lia.
+    intros ->. cbn [dec_value] in Hr. clear - Hr. lia.
   Qed.
 
   (* the same after an IP literal: P may contain anything but '@' and delimiters *)
@@ -683,7 +691,7 @@ Section Shape.
   Proof.
     intros Hm Hs Hnone Hurn Hui Hi Hia Hib HP HPa Hrest H.
     assert (Hlen : lenN (s ++ colon :: slash :: slash :: (ui ++ 91 :: inner ++ 93 :: colon :: P) ++ rest) <= uri_MAX_URL - 1).
-    { unfold parse in H. destruct (uri_MAX_URL - 1 <? lenN _) eqn:E; [discriminate| lia]. }
+    { unfold parse in H. destruct (uri_MAX_URL - 1 <? lenN _) eqn:E; [discriminate| apply N.ltb_ge in E; exact E]. }
     assert (HA : forallb auth_char (ui ++ 91 :: inner ++ 93 :: colon :: P) = true).
     { rewrite forallb_app'. cbn [forallb]. rewrite forallb_app'. cbn [forallb].
       rewrite (userinfo_auth ui Hui), Hi, HP. reflexivity. }
@@ -705,7 +713,7 @@ Section Shape.
     destruct (port_digits_sound P 0 port Hpd) as [Hd Hv]. apply finish_inv in Hal.
     destruct Hal as [_ [_ [Hp [Hr _]]]]. subst port.
     split; [|split; [exact Hd| split; [exact Hr| exact Hp]]].
-    intros ->. cbn [dec_value] in Hr. lia.
+    intros ->. cbn [dec_value] in Hr. clear - Hr. lia.
   Qed.
 
   (* without a port: the scheme's default port *)
@@ -720,7 +728,7 @@ Section Shape.
   Proof.
     intros Hm Hs Hnone Hurn Hui Hh Hha Hhc Hhb Hrest H.
     assert (Hlen : lenN (s ++ colon :: slash :: slash :: (ui ++ h) ++ rest) <= uri_MAX_URL - 1).
-    { unfold parse in H. destruct (uri_MAX_URL - 1 <? lenN _) eqn:E; [discriminate| lia]. }
+    { unfold parse in H. destruct (uri_MAX_URL - 1 <? lenN _) eqn:E; [discriminate| apply N.ltb_ge in E; exact E]. }
     assert (HA : forallb auth_char (ui ++ h) = true).
     { rewrite forallb_app', (userinfo_auth ui Hui), Hh. reflexivity. }
     rewrite (parse_shape c m s _ rest Hm Hs Hnone Hurn HA Hrest Hlen) in H.
@@ -735,6 +743,214 @@ Section Shape.
     split; [exact Hne|].
     rewrite (after_login_name c _ login h _ Hhb Hhc Hne) in Hal. apply finish_inv in Hal.
     destruct Hal as [Hsch [_ [Hp [Hr _]]]]. split; [|exact Hsch]. rewrite Hp.
-    destruct (default_port (scheme_of s)) as [d|]; [reflexivity| lia].
+    destruct (default_port (scheme_of s)) as [d|]; [reflexivity| clear - Hr; lia].
   Qed.
 End Shape.
+
+(* ================================================================== *)
+(* canonical form -> parse: the fixed-point half of (2)                 *)
+
+(* finite sweep over [base, base + 2^k) *)
+Fixpoint all_below (k : nat) (base : N) (f : N -> bool) : bool :=
+  match k with
+  | O => f base
+  | S k' => all_below k' base f && all_below k' (base + 2 ^ N.of_nat k') f
+  end.
+Lemma all_below_spec k : forall base f, all_below k base f = true ->
+  forall p, base <= p < base + 2 ^ N.of_nat k -> f p = true.
+Proof.
+  induction k as [|k IH]; intros base f H p Hp.
+  - cbn [all_below] in H. change (2 ^ N.of_nat 0) with 1 in Hp. replace p with base by lia. exact H.
+  - cbn [all_below] in H. apply andb_true_iff in H as [H1 H2].
+    rewrite Nat2N.inj_succ, N.pow_succ_r' in Hp.
+    destruct (N.lt_ge_cases p (base + 2 ^ N.of_nat k)) as [L|L].
+    + apply (IH base f H1). lia.
+    + apply (IH _ f H2). lia.
+Qed.
+
+Definition port_text_ok (p : N) : bool :=
+  (p =? 0) ||
+  (match port_digits (dec16 p) 0 with Some q => q =? p | None => false end
+   && no_colon (dec16 p) && negb (existsb (N.eqb 64) (dec16 p))
+   && forallb (fun c => negb (host_delim c) && negb (c =? 0)) (dec16 p)).
+Lemma port_text_sweep : all_below 16 0 port_text_ok = true.
+Proof. vm_compute. reflexivity. Qed.
+Lemma port_text p : 1 <= p <= 65535 ->
+  port_digits (dec16 p) 0 = Some p /\ no_colon (dec16 p) = true /\
+  negb (existsb (N.eqb 64) (dec16 p)) = true /\ forallb auth_char (dec16 p) = true.
+Proof.
+  intros Hp. pose proof (all_below_spec 16 0 port_text_ok port_text_sweep p) as H.
+  change (2 ^ N.of_nat 16) with 65536 in H. specialize (H ltac:(lia)). unfold port_text_ok in H.
+  apply orb_true_iff in H as [H|H]; [lia|].
+  apply andb_true_iff in H as [H H4]. apply andb_true_iff in H as [H H3]. apply andb_true_iff in H as [H1 H2].
+  destruct (port_digits (dec16 p) 0) as [q|]; [|discriminate]. apply N.eqb_eq in H1. subst q.
+  repeat split; assumption.
+Qed.
+
+(* per-byte facts about the regenerated Encode tables and PathChars *)
+Definition path_byte_ok (c : N) : bool :=
+  negb (uri_PathChars c) ||
+  (list_eqb (tbl_entry bm_uri_path c) [c] && negb (c =? 0) && negb (is_crlf c) && negb (w_space c)).
+Lemma path_byte_sweep c : c < 256 -> path_byte_ok c = true.
+Proof. apply (forallb_bytes path_byte_ok). vm_compute. reflexivity. Qed.
+Lemma pathchars_small c : uri_PathChars c = true -> c < 256.
+Proof.
+  intros H. destruct (N.lt_ge_cases c 256) as [L|L]; [exact L|].
+  unfold uri_PathChars, mem_tbl in H. rewrite tbl_get_default in H; [discriminate|].
+  assert (Len : lenN uri_PathChars_tbl = 256) by (vm_compute; reflexivity). lia.
+Qed.
+Lemma list_eqb_true a : forall b, list_eqb a b = true -> a = b.
+Proof.
+  induction a as [|x a IH]; intros [|y b] H; cbn [list_eqb] in H; try discriminate; [reflexivity|].
+  apply andb_true_iff in H as [Hx Hr]. apply N.eqb_eq in Hx. subst y. rewrite (IH b Hr). reflexivity.
+Qed.
+Lemma pathchar_facts c : uri_PathChars c = true ->
+  tbl_entry bm_uri_path c = [c] /\ (c =? 0) = false /\ is_crlf c = false /\ w_space c = false.
+Proof.
+  intros H. pose proof (path_byte_sweep c (pathchars_small c H)) as S. unfold path_byte_ok in S.
+  rewrite H in S. cbn [negb orb] in S.
+  apply andb_true_iff in S as [S S4]. apply andb_true_iff in S as [S S3]. apply andb_true_iff in S as [S1 S2].
+  apply list_eqb_true in S1. apply negb_true_iff in S2, S3, S4. repeat split; assumption.
+Qed.
+
+Definition clean_path (p : bytes) : Prop := starts_ch slash p = true /\ forallb uri_PathChars p = true.
+
+Lemma clean_encode p : forallb uri_PathChars p = true -> uri_encode_path p = p.
+Proof.
+  unfold uri_encode_path, map_bytes. induction p as [|x p IH]; cbn [forallb map concat]; [reflexivity|].
+  intros H. apply andb_true_iff in H as [Hx Hp]. destruct (pathchar_facts x Hx) as [E _].
+  rewrite E, (IH Hp). reflexivity.
+Qed.
+Lemma clean_cstr p : forallb uri_PathChars p = true -> cstr p = p.
+Proof.
+  induction p as [|x p IH]; cbn [forallb cstr]; [reflexivity|]. intros H.
+  apply andb_true_iff in H as [Hx Hp]. destruct (pathchar_facts x Hx) as [_ [E _]]. rewrite E, (IH Hp). reflexivity.
+Qed.
+Lemma clean_span p : forallb uri_PathChars p = true -> fst (span (fun c => negb (is_crlf c)) p) = p.
+Proof.
+  induction p as [|x p IH]; cbn [forallb span]; [reflexivity|]. intros H.
+  apply andb_true_iff in H as [Hx Hp]. destruct (pathchar_facts x Hx) as [_ [_ [E _]]]. rewrite E. cbn [negb].
+  specialize (IH Hp). destruct (span (fun c => negb (is_crlf c)) p) as [a b]. cbn [fst] in *. rewrite IH. reflexivity.
+Qed.
+Lemma clean_no_ws p : forallb uri_PathChars p = true -> existsb w_space p = false.
+Proof.
+  induction p as [|x p IH]; cbn [forallb existsb]; [reflexivity|]. intros H.
+  apply andb_true_iff in H as [Hx Hp]. destruct (pathchar_facts x Hx) as [_ [_ [_ E]]]. rewrite E, (IH Hp). reflexivity.
+Qed.
+
+(* the userinfo encoder of absolute() emits only bytes the authority loop copies *)
+Definition ui_entry_ok (c : N) : bool := forallb auth_char (tbl_entry bm_uri_userinfo c).
+Lemma ui_entry_sweep c : c < 256 -> ui_entry_ok c = true.
+Proof. apply (forallb_bytes ui_entry_ok). vm_compute. reflexivity. Qed.
+Lemma ui_entry_auth c : forallb auth_char (tbl_entry bm_uri_userinfo c) = true.
+Proof.
+  destruct (N.lt_ge_cases c 256) as [L|L]; [exact (ui_entry_sweep c L)|].
+  unfold tbl_entry. rewrite tbl_get_default; [reflexivity|].
+  apply N.le_trans with 256; [|exact L]. vm_compute. discriminate.
+Qed.
+Lemma encode_userinfo_auth l : forallb auth_char (uri_encode_userinfo l) = true.
+Proof.
+  unfold uri_encode_userinfo, map_bytes. induction l as [|x l IH]; cbn [map concat]; [reflexivity|].
+  rewrite forallb_app', ui_entry_auth, IH. reflexivity.
+Qed.
+
+(* a host text that the hostname rules of finish() leave exactly as it is *)
+Definition settled_host (c : cfg) (h : bytes) : Prop :=
+  h <> [] /\ forallb auth_char h = true /\ no_at h = true /\ no_colon h = true /\ starts_ch 91 h = false /\
+  lower_host c h = h /\ strip_td h = h /\ has_dotdot h = false /\ starts_dot h = false /\
+  (c_check c = true -> forallb (hostchars c) h = true).
+
+Section Reparse.
+  Variable ipq : bytes -> ipres.
+
+  (* Re-parsing the canonical form of a URI value whose host is a settled reg-name (or a dotted quad
+     that Ip::Address recognises as itself: hypothesis Hhost covers both) and whose path needs no
+     encoding gives back the same scheme, host, port and path.  The login is re-read from the
+     encoded userinfo (dropped for http/https). *)
+  Theorem reparse_canonical c m u port :
+    is_connect m = false ->
+    scheme_text (s_img (u_scheme u)) -> scheme_of (s_img (u_scheme u)) = u_scheme u ->
+    s_id (u_scheme u) <> uri_PROTO_NONE -> s_id (u_scheme u) <> uri_PROTO_URN ->
+    u_port u = Some port -> 1 <= port <= 65535 ->
+    settled_host c (u_host u) -> set_host ipq (u_host u) = (u_host u, u_num u) ->
+    clean_path (u_path u) ->
+    lenN (absolute u) <= uri_MAX_URL - 1 ->
+    exists login',
+      parse c ipq m (absolute u) =
+        Some {| u_scheme := u_scheme u; u_login := login'; u_host := u_host u; u_num := u_num u;
+                u_port := Some port; u_path := u_path u |}.
+  Proof.
+    intros Hm Hst Hso Hnone Hurn Hport Hrange Hh Hset [Hp0 Hpc] Hlen.
+    destruct Hh as [Hne [Hha [Hhat [Hhc [Hhb [Hlow [Htd [Hdd [Hsd Hck]]]]]]]]].
+    set (sch := u_scheme u) in *. set (h := u_host u) in *. set (path := u_path u) in *.
+    (* the three parts of absolute() *)
+    assert (Epath : absolute_path u = path).
+    { unfold absolute_path, path_acc. fold path. destruct path as [|p0 pr] eqn:Ep; [discriminate|].
+      rewrite <- Ep. apply clean_encode. rewrite Ep. exact Hpc. }
+    set (ui := if ((s_id sch =? uri_PROTO_FTP) || (s_id sch =? uri_PROTO_UNKNOWN)) && negb (is_nil (u_login u))
+               then uri_encode_userinfo (u_login u) ++ [64] else []).
+    assert (Hui : userinfo_at ui).
+    { unfold ui. destruct (_ && _); [right; eexists; split; [reflexivity| apply encode_userinfo_auth]| left; reflexivity]. }
+    destruct (port_text port Hrange) as [Hpd [Hpc' [Hpa Hpauth]]].
+    set (pp := if opt_n_eqb (Some port) (default_port sch) then [] else colon :: dec16 port).
+    assert (Eabs : absolute u = s_img sch ++ colon :: slash :: slash :: (ui ++ h ++ pp) ++ path).
+    { unfold absolute. fold sch h. apply N.eqb_neq in Hurn. rewrite Hurn. cbn [negb]. rewrite Epath.
+      unfold authority. fold h sch. rewrite Hport. cbn [orb]. fold ui. unfold pp.
+      destruct (opt_n_eqb (Some port) (default_port sch)); cbn [negb];
+        rewrite <- ?app_assoc; cbn [app]; rewrite ?app_nil_r; reflexivity. }
+    rewrite Eabs in Hlen |- *.
+    assert (Hrest : rest_ok path).
+    { destruct path as [|p0 pr]; [exact I|]. cbn [starts_ch] in Hp0. apply N.eqb_eq in Hp0. subst p0.
+      left. reflexivity. }
+    assert (HA : forallb auth_char (ui ++ h ++ pp) = true).
+    { rewrite !forallb_app', (userinfo_auth ui Hui), Hha. unfold pp.
+      destruct (opt_n_eqb _ _); [reflexivity|]. cbn [forallb]. rewrite Hpauth. reflexivity. }
+    rewrite (parse_shape ipq c m (s_img sch) _ path Hm Hst) by (try rewrite Hso; assumption).
+    rewrite Hso.
+    assert (Hhp : no_at (h ++ pp) = true).
+    { unfold no_at in *. rewrite existsb_app. apply negb_true_iff in Hhat. rewrite Hhat. unfold pp.
+      destruct (opt_n_eqb _ _); [reflexivity|]. cbn [existsb orb]. exact Hpa. }
+    pose proof (split_login ui (h ++ pp) Hui Hhp) as Hsl.
+    (* the tail of parse() on the re-read text *)
+    assert (Hup : urlpath_of (cstr path) = path).
+    { rewrite (clean_cstr path Hpc). unfold urlpath_of. rewrite Hp0. cbn [app]. apply clean_span, Hpc. }
+    assert (Hfin : forall login',
+               finish c ipq sch login' h port path =
+               Some {| u_scheme := sch; u_login := login'; u_host := h; u_num := u_num u;
+                       u_port := Some port; u_path := path |}).
+    { intros login'. unfold finish. rewrite Hlow, Htd, Hdd, Hsd. cbn [orb].
+      assert (Ck : c_check c && negb (forallb (hostchars c) h) = false).
+      { destruct (c_check c); [rewrite (Hck eq_refl); reflexivity| reflexivity]. }
+      rewrite Ck. assert (Pr : (port <? 1) || (65535 <? port) = false) by (clear - Hrange; lia). rewrite Pr.
+      unfold ws_path. rewrite (clean_no_ws path Hpc). rewrite Hset. reflexivity. }
+    assert (Hal : forall login', after_login c ipq sch login' (h ++ pp) path =
+               Some {| u_scheme := sch; u_login := login'; u_host := h; u_num := u_num u;
+                       u_port := Some port; u_path := path |}).
+    { intros login'. unfold pp. destruct (opt_n_eqb (Some port) (default_port sch)) eqn:Ed.
+      - rewrite app_nil_r, (after_login_name ipq c sch login' h path Hhb Hhc Hne).
+        destruct (default_port sch) as [d|]; [|discriminate]. cbn [opt_n_eqb] in Ed. apply N.eqb_eq in Ed.
+        subst d. apply Hfin.
+      - rewrite (after_login_name_port ipq c sch login' h (dec16 port) path Hhb Hhc Hpc'), Hpd. apply Hfin. }
+    rewrite Hup. destruct (split_last 64 (ui ++ h ++ pp)) as [[a b]|].
+    - subst b. eexists. apply Hal.
+    - eexists. apply Hal.
+  Qed.
+
+  (* corollary: the canonical form of such a URI value is a fixed point *)
+  Corollary canonical_fixed_point c m u port :
+    is_connect m = false ->
+    (s_id (u_scheme u) =? uri_PROTO_FTP) || (s_id (u_scheme u) =? uri_PROTO_UNKNOWN) = false ->
+    scheme_text (s_img (u_scheme u)) -> scheme_of (s_img (u_scheme u)) = u_scheme u ->
+    s_id (u_scheme u) <> uri_PROTO_NONE -> s_id (u_scheme u) <> uri_PROTO_URN ->
+    u_port u = Some port -> 1 <= port <= 65535 ->
+    settled_host c (u_host u) -> set_host ipq (u_host u) = (u_host u, u_num u) ->
+    clean_path (u_path u) ->
+    lenN (absolute u) <= uri_MAX_URL - 1 ->
+    exists u', parse c ipq m (absolute u) = Some u' /\ absolute u' = absolute u.
+  Proof.
+    intros Hm Hnoui Hst Hso Hnone Hurn Hport Hrange Hh Hset Hp Hlen.
+    destruct (reparse_canonical c m u port Hm Hst Hso Hnone Hurn Hport Hrange Hh Hset Hp Hlen) as [login' H].
+    eexists. split; [exact H|]. unfold absolute, authority, absolute_path, path_acc.
+    cbn [u_scheme u_login u_host u_port u_path]. rewrite Hnoui, Hport. cbn [andb]. reflexivity.
+  Qed.
+End Reparse.
